@@ -563,120 +563,3 @@ func TestVerifC08_histories(t *testing.T) {
 		rec(nil)
 	})
 }
-
-// c08Toy is an AEAD with a tiny nonce so that the whole counter space can be walked.
-type c08Toy struct {
-	n    int
-	used map[string]int
-	last []byte
-}
-
-func (a *c08Toy) NonceSize() int { return a.n }
-func (a *c08Toy) Overhead() int  { return 1 }
-func (a *c08Toy) Seal(dst, nonce, pt, aad []byte) []byte {
-	if len(nonce) != a.n {
-		panic("toy: nonce length")
-	}
-	a.used[string(nonce)]++
-	a.last = append(a.last[:0], nonce...)
-	out := append(dst, nonce...)
-	out = append(out, pt...)
-	tag := byte(0x5a)
-	for _, b := range aad {
-		tag = tag*31 + b
-	}
-	return append(out, tag)
-}
-
-func (a *c08Toy) Open(dst, nonce, ct, aad []byte) ([]byte, error) {
-	if len(ct) < a.n+1 || !bytes.Equal(ct[:a.n], nonce) {
-		return nil, errors.New("toy: open failed")
-	}
-	tag := byte(0x5a)
-	for _, b := range aad {
-		tag = tag*31 + b
-	}
-	if ct[len(ct)-1] != tag {
-		return nil, errors.New("toy: tag")
-	}
-	return append(dst, ct[a.n:len(ct)-1]...), nil
-}
-
-// TestVerifC08_counterspace walks the entire sequence-number space of a context whose AEAD has a
-// 1-byte and a 2-byte nonce (the increment logic is length-generic): every value is sealed once,
-// opened in lock-step, nonces are observed, and the overflow at the top is checked.
-func TestVerifC08_counterspace(t *testing.T) {
-	r := verifmc.Start(t, "C08", "counterspace")
-	defer r.Finish()
-	r.Rule("complete walk of the 2^8 and 2^16 sequence numbers of the real encdecContext with a toy AEAD; non-trivial = each distinct (width, sequence number)")
-	for _, nn := range []int{1, 2} {
-		for _, base := range [][]byte{make([]byte, nn), bytes.Repeat([]byte{0xa5}, nn)} {
-			toyS := &c08Toy{n: nn, used: map[string]int{}}
-			toyO := &c08Toy{n: nn, used: map[string]int{}}
-			mk := func(a cipher.AEAD) *encdecContext {
-				return &encdecContext{suite: NewSuite(KEM_X25519_HKDF_SHA256, KDF_HKDF_SHA256, AEAD_AES128GCM),
-					exporterSecret: make([]byte, 32), key: make([]byte, 16), baseNonce: append([]byte{}, base...),
-					sequenceNumber: make([]byte, nn), AEAD: a, nonce: make([]byte, nn)}
-			}
-			S := &sealContext{mk(toyS)}
-			O := &openContext{mk(toyO)}
-			total := 1 << (8 * nn)
-			released := map[string]bool{} // nonces of ciphertexts that were actually returned
-			tag := fmt.Sprintf("toy%d/base=%x", nn, base)
-			for i := 0; i < total; i++ {
-				r.Eval(1)
-				r.State(1)
-				r.Transition(2)
-				r.Distinct(nn, base, i)
-				pt := []byte{byte(i), byte(i >> 8)}
-				ct, err := S.Seal(pt, []byte("a"))
-				if i == total-1 {
-					if !errors.Is(err, ErrAEADSeqOverflows) || ct != nil {
-						r.Violation("C08|toy|SealOverflow", tag, fmt.Sprintf("%s: seal at top: err=%v ct=%x", tag, err, ct), nil)
-					}
-					// forged ct for the top nonce: open must refuse with overflow
-					want := make([]byte, nn)
-					for k := range want {
-						want[k] = 0xff ^ base[k]
-					}
-					forged := toyO.Seal(nil, want, pt, []byte("a"))
-					p2, err := O.Open(forged, []byte("a"))
-					if !errors.Is(err, ErrAEADSeqOverflows) || p2 != nil {
-						r.Violation("C08|toy|OpenOverflow", tag, fmt.Sprintf("%s: open at top: err=%v pt=%x", tag, err, p2), nil)
-					}
-					break
-				}
-				if err != nil {
-					r.Violation("C08|toy|SealFailed", tag, fmt.Sprintf("%s: seal #%d failed: %v", tag, i, err), nil)
-					break
-				}
-				want := make([]byte, nn)
-				for k := 0; k < nn; k++ {
-					want[k] = byte(i>>(8*(nn-1-k))) ^ base[k]
-				}
-				if !bytes.Equal(toyS.last, want) {
-					r.Violation("C08|toy|Nonce", tag, fmt.Sprintf("%s: seal #%d used nonce %x want %x", tag, i, toyS.last, want), nil)
-					break
-				}
-				if toyS.used[string(want)] != 1 {
-					r.Violation("C08|toy|NonceReuse", tag, fmt.Sprintf("%s: nonce %x used %d times", tag, want, toyS.used[string(want)]), nil)
-					break
-				}
-				released[string(toyS.last)] = true
-				// a failed open in between must not move the opener
-				if _, err := O.Open(verifmc.Flip(ct, len(ct)*8-1), []byte("a")); err == nil {
-					r.Violation("C08|toy|GarbageOpened", tag, "garbage opened", nil)
-				}
-				p2, err := O.Open(ct, []byte("a"))
-				if err != nil || !bytes.Equal(p2, pt) {
-					r.Violation("C08|toy|OpenLockstep", tag, fmt.Sprintf("%s: open #%d: err=%v pt=%x", tag, i, err, p2), nil)
-					break
-				}
-			}
-			if len(released) != total-1 {
-				r.Violation("C08|toy|Coverage", tag, fmt.Sprintf("%s: %d distinct nonces released, want %d", tag, len(released), total-1), nil)
-			}
-			r.Sample(map[string]interface{}{"nonce_bytes": nn, "base": fmt.Sprintf("%x", base), "sequence_numbers_walked": total})
-		}
-	}
-}
